@@ -458,7 +458,7 @@ theorem readCollectionAllocF_SF (fuel : Nat) :
 
 /-- every outcome (value, error): `200·len + 164808` -/
 theorem decodeAlloc_le' (bs : Bytes) : decodeAlloc bs ≤ allocPerByte * bs.length + allocFixed := by
-  have := decodeWithAlloc_F _ (readCollectionAllocF_SF bs.length).2 bs
+  have := decodeWithAlloc_F _ (readCollectionAllocF_SF wkb_MaxCollectionDepth).2 bs
   simp only [decodeAlloc, allocPerByte, allocFixed, szBuf, szSlice, szPoint, wkb_MaxMultiAlloc,
     wkb_MaxPointsAlloc]
   omega
@@ -469,7 +469,7 @@ theorem decodeAlloc_ok_le' (bs : Bytes) (g : G) (s : Nat) (h : decode bs = .ok (
   unfold decode decodeStream at h
   split at h
   · rename_i hd
-    have := decodeWithAlloc_S _ _ (readCollectionAllocF_SF bs.length).1 hd
+    have := decodeWithAlloc_S _ _ (readCollectionAllocF_SF wkb_MaxCollectionDepth).1 hd
     simp only [decodeAlloc, allocPerByte]
     omega
   all_goals contradiction
